@@ -204,8 +204,11 @@ class C08(World):
         )
         nice = swarm["nice"]
         steps = []
+        big = self.tier == "thorough" and sw.random() < 0.25
+        if big:
+            swarm["n_req"] = sw.choice([12, 20, 30])
         if swarm["source"] in ("builder", "cascade"):
-            n = args.choice([1, 2, 3, 4, 6, 8])
+            n = args.choice([1, 2, 3, 4, 6, 8] if not big else [12, 20, 40])
             streams = []
             for k in range(n):
                 if nice:
